@@ -201,6 +201,13 @@ func (r *Run) Violation(fingerprint, what string, replay interface{}) {
 	r.order = append(r.order, fingerprint)
 }
 
+// ViolationCount is the number of distinct fingerprints recorded so far.
+func (r *Run) ViolationCount() int {
+	r.mu.Lock()
+	defer r.mu.Unlock()
+	return len(r.viol)
+}
+
 // HasViolation tells whether the fingerprint was already reported in this run.
 func (r *Run) HasViolation(fingerprint string) bool {
 	r.mu.Lock()
